@@ -152,7 +152,9 @@ fn case(out: &mut Out, label: &str, bs: &[u8], tree: Option<&StructureTag>) {
     let every = DRIVE_EVERY.with(|d| d.get());
     let no = CASE_NO.with(|c| { c.set(c.get() + 1); c.get() });
     if every > 0 && no % every == 0 && bs.len() <= 4000 {
-        drive_case(out, label, bs, &got, if (no / every) % 2 == 0 { Some(1 + ((no / every / 2) % 3) as u8) } else { None });
+        // re-addressed to the pending operations (1..3), to nobody (9), as an unsolicited notification (0), or as it is
+        let k = no / every;
+        drive_case(out, label, bs, &got, match k % 6 { 0 => Some(1), 1 => None, 2 => Some(2), 3 => Some(0), 4 => Some(3), _ => Some(9) });
     }
     let h = hex(bs);
     out.case(&h, bs.len() >= 2);
@@ -185,6 +187,36 @@ pub fn run(thorough: bool, mut rng: Rng, mut out: Out) {
               "30028a00", "3002a000", "3005a0008a0130", "30040200 6100", "3007020061008a00"] {
         let w: String = w.chars().filter(|c| *c != ' ').collect();
         case(&mut out, "corpus", &unhex(&w), None);
+    }
+    // unsolicited notifications (message ID 0) and frames for nobody (ID 9) whose ENVELOPE is fine and whose body
+    // is not a well-formed LDAPResult / ExtendedResponse: the driver has nobody to hand them to and must neither
+    // interpret them nor die of them — all driven through a live connection with three operations pending
+    {
+        let bodies: Vec<(&str, StructureTag)> = vec![
+            ("extended response without matchedDN and text", cons(1, 24, vec![prim(0, 10, vec![0x34])])),
+            ("empty extended response", cons(1, 24, vec![])),
+            ("primitive extended response", prim(1, 24, vec![1, 2, 3])),
+            ("notice of disconnection, well-formed", cons(1, 24, vec![prim(0, 10, vec![52]), prim(0, 4, vec![]), prim(0, 4, b"bye".to_vec()), prim(2, 10, b"1.3.6.1.4.1.1466.20036".to_vec())])),
+            ("notice of disconnection, text not UTF-8", cons(1, 24, vec![prim(0, 10, vec![52]), prim(0, 4, vec![]), prim(0, 4, vec![0xff, 0xfe]), prim(2, 10, b"1.3.6.1.4.1.1466.20036".to_vec())])),
+            ("notice of disconnection, code not an ENUMERATED", cons(1, 24, vec![prim(0, 4, vec![52]), prim(0, 4, vec![]), prim(0, 4, vec![])])),
+            ("notice with a constructed result code", cons(1, 24, vec![cons(0, 10, vec![]), prim(0, 4, vec![]), prim(0, 4, vec![])])),
+            ("bind response with one element", cons(1, 1, vec![prim(0, 10, vec![0])])),
+            ("search result done, empty", cons(1, 5, vec![])),
+            ("search entry", cons(1, 4, vec![prim(0, 4, b"cn=x".to_vec()), cons(0, 16, vec![])])),
+            ("intermediate response", cons(1, 25, vec![prim(2, 0, b"1.2".to_vec())])),
+            ("unknown application tag 30", cons(1, 30, vec![prim(0, 10, vec![0]), prim(0, 4, vec![]), prim(0, 4, vec![])])),
+            ("result with a referral that is not a sequence", cons(1, 24, vec![prim(0, 10, vec![10]), prim(0, 4, vec![]), prim(0, 4, vec![]), prim(2, 3, vec![1])])),
+        ];
+        for (name, body) in bodies {
+            for id in [0u8, 9] {
+                let msg = cons(0, 16, vec![prim(0, 2, vec![id]), body.clone()]);
+                let bs = real_encode(&msg);
+                let got = decode_outcome(&bs);
+                out.stat("drive.notification-corpus");
+                drive_case(&mut out, &format!("unsolicited id={} {}", id, name), &bs, &got, None);
+                case(&mut out, "notification", &bs, Some(&msg));
+            }
+        }
     }
     // controls with odd criticality / value shapes (F2)
     for ctl in [
